@@ -258,3 +258,27 @@ def run(ck, fx, cg, tier):
         prints = [n for n, ps in walk_body(b) if n.get("k") == "FormatArgs" and "println" in (n.get("sp", {}).get("ms") or [])]
         ok = prog is not None and len(prints) == 1 and fmt_pieces(prints[0]) == "{0}\n" and local_of(prints[0]["args"][0]) and local_of(prints[0]["args"][0])[0] == prog
         ck.ob("R17.wiring", "prints the loaded program through Display", ok, loc(b), "println!(\"{}\", <program loaded by BCSerializer::deserialize>): %s" % ok)
+    # ---------------------------------------------------------------- the program that is listed is the program in the file
+    _loader(ck, fx, cg)
+
+
+def _loader(ck, fx, cg):
+    """The listing renders the *loaded* Program; "every constant with its index … as an independent reader decodes
+    from the file" therefore presupposes that loading keeps every constant, global, instruction and the entry at its
+    file position. Those are C04's reader obligations (R4.reader: per-kind layouts, program frame, pool integrity);
+    they are evaluated here as one presupposition."""
+    from ..core import Check, load_known
+    from . import c04
+    known = load_known()
+    sub = Check("C04", ck.tier, ck.seed)
+    try:
+        c04.run(sub, fx, cg, "quick")
+    except Exception as e:  # noqa
+        ck.ob("R17.loader", "reader obligations", False, "", "C04's reader rules could not be evaluated: %s: %s" % (type(e).__name__, e))
+        return
+    rd = [o for o in sub.obligs if o["rule"].startswith("R4.reader")]
+    bad = [o for o in rd if not o["ok"] and ("C04", "%s|%s" % (o["rule"], o["key"])) not in known]
+    ck.ob("R17.loader", "the listed program is the program in the file", not bad, bad[0]["where"] if bad else "",
+          "%d reader obligation(s) hold (every constant / global / instruction is loaded at its file position)" % len(rd) if not bad else
+          "%d reader obligation(s) violated, first: %s — %s" % (len(bad), bad[0]["key"], bad[0]["detail"][:220]))
+    ck.floor("R17.loader", "reader obligations evaluated", len(rd), 20)
